@@ -373,9 +373,24 @@ def convs_for(cols):
     return convs
 
 
+def earlier_calls_with_keywords():
+    """Unrelated exports made earlier in the process WITH keyword arguments (what a caller passes must stay that
+    call's business: defaults of later calls are the documented ones)."""
+    other = di.DataFrame(zz=[1, 2], aa=["x", None])
+    other.to_json(sort_keys=True, indent=4, ensure_ascii=True)
+    other.to_list_of_dicts().to_json(sort_keys=True, indent=None)
+    try:
+        other.to_pandas()
+        other.to_arrow()
+    except Exception:
+        pass
+
+
 def check_case(case, rec):
     cols = case["cols"]
     nontrivial = any(t is None for name, fam, toks in cols for t in toks)
+    if case.get("prior"):
+        earlier_calls_with_keywords()
     ctx = Ctx(cols)
     for conv in case.get("convs") or convs_for(cols):
         obs = observe(ctx, conv)
@@ -393,6 +408,8 @@ def check_case(case, rec):
                 # the harness re-executes every reported violation (case, then whole shard in a fresh process) and decides
                 rec.count("diverged_on_immediate_reexecution")
             one = {"cols": cols, "convs": [conv]}
+            if case.get("prior"):
+                one["prior"] = True
             for clause, detail, cls in obs["problems"]:
                 rec.violation(conv, clause, one, detail, cls=cls)
         if V.frame_key(ctx.d) != ctx.before:
@@ -470,7 +487,7 @@ def run_shard(shard, rec):
         f1, f2, k = shard["f1"], shard["f2"], shard["k"]
         second = list(columns(f2, SMALL[f2][:k], n))
         # names in non-alphabetical order: a sorted-keys export/import is visible
-        cases = ({"cols": [["b", f1, t1], ["a", f2, t2]]}
+        cases = ({"cols": [["b", f1, t1], ["a", f2, t2]], "prior": True}
                  for t1 in columns(f1, SMALL[f1][:k], n, shard["first"]) for t2 in second)
     for i, case in enumerate(cases):
         check_case(case, rec)
